@@ -39,6 +39,12 @@ def rv(x):
         if not math.isfinite(float(x)):
             raise Unsupported("non-finite float constant %r" % (x,))
         f = Fraction(float(x))
+        if f.denominator > (1 << 24):
+            # a double that is the correctly rounded quotient of two small integers (nb / n computed by CPython on ints before the
+            # proxies see it, 1/3, 0.1 ...) stands for that quotient: the claims are over the reals, constants mean their exact values
+            g = f.limit_denominator(4096)
+            if g.numerator / g.denominator == float(x):
+                f = g
         return z3.RealVal(str(f)) if f.denominator != 1 else z3.RealVal(f.numerator)
     raise TypeError(type(x))
 
